@@ -21,7 +21,8 @@ LEVEL_TEXT = ("exhaustive within the bound for formulas of depth<=2 (arity<=2) o
 RULE = (
     "A guard formula F is placed (1) on the first of two leaf candidates, (2) on the second candidate behind a false one "
     "with an unguarded ancestor handler, (3) on an ancestor's first candidate, (4) on a choose branch, (5) behind "
-    "enqueueActions' check(); spelled with `guard` or `cond`, operands under children / params.guards / params.guard. "
+    "enqueueActions' check(), (6) behind a false *twin* in the same candidate list - a guard with the same type string "
+    "(same guard name with other params, same composite kind with other operands, stateIn of another state); spelled with `guard` or `cond`, operands under children / params.guards / params.guard. "
     "Oracle: Python evaluation with left-to-right short-circuit where a raising atom is False; the marker that ran must be "
     "the one that value selects (first / fallback / ancestor); a *reached* missing atom must surface "
     "ImplementationMissingError (raised by sync send(), no transition on async, can() False; reported through "
@@ -47,7 +48,7 @@ IA = {"k": "in", "state": ["a"]}
 II = {"k": "in", "state": ["b"]}
 CORE = [T, F, R, M]
 ALL = [T, F, R, M, PT, PF, PC, IA, II]
-POSITIONS = ["first", "second", "ancestor", "choose", "enqueue"]
+POSITIONS = ["first", "second", "ancestor", "choose", "enqueue", "twin"]
 FORMS = ["children", "params.guards", "params.guard"]
 
 
@@ -124,6 +125,24 @@ def _render(g):
     return _cfg_guard(g)
 
 
+def twin_of(g, tree="small"):
+    """A guard with the same `type` string as g (same name / same composite kind) that is false:
+    different params or operands. Sits *before* g in the same candidate list."""
+    k = g["k"]
+    if k == "and":
+        return {"k": "and", "args": [F], "sp": g.get("sp")}
+    if k == "or":
+        return {"k": "or", "args": [F], "sp": g.get("sp")}
+    if k == "not":
+        return {"k": "not", "arg": T, "sp": g.get("sp")}
+    if k == "param":
+        return {"k": "param", "name": g["name"], "params": {"want": False}}
+    if k == "in":
+        other = "b" if tree == "small" else "q"   # exists, never active in the harness trees
+        return {"k": "in", "state": [other], "abs_id": "m." + other, "sp": {"form": "#abs", "pkey": (g.get("sp") or {}).get("pkey", "state")}}
+    return F
+
+
 _LOG: List[Any] = []
 
 
@@ -144,6 +163,8 @@ def build_machine(g, position, gkey, tree="small"):
     elif position == "second":
         leaf_on["GO"] = [tr("c0", "g.false"), tr("first", gc)]
         root_on["GO"] = tr("anc")
+    elif position == "twin":
+        leaf_on["GO"] = [tr("c0", _render(twin_of(g, tree))), tr("first", gc), tr("second")]
     elif position == "ancestor":
         par_on["GO"] = [tr("first", gc), tr("second")]
     elif position == "choose":
@@ -292,7 +313,7 @@ def judge(g, position, engine, out, active) -> Optional[tuple]:
     has_missing = contains(g, "missing")
     acts = out["acts"]
     fired = [a for a in acts if a in ("first", "second", "anc")]
-    if position in ("first", "ancestor"):
+    if position in ("first", "ancestor", "twin"):
         want = {True: ["first"], False: ["second"]}
     elif position == "second":
         want = {True: ["first"], False: ["anc"]}
@@ -314,9 +335,11 @@ def judge(g, position, engine, out, active) -> Optional[tuple]:
                 good = False
         else:
             good = fired == want[bool(val)] and out["exc"] is None
-            if position in ("first", "ancestor", "second") and out.get("can") is not True:
+            if position in ("first", "ancestor", "second", "twin") and out.get("can") is not True:
                 good = False
         verdicts.append(good)
+    if "c0" in acts:
+        return "false-candidate-fired", {"value": v, "acts": acts}
     if not any(verdicts):
         if v == "missing":
             law = "missing-guard-decided-silently" if fired else "missing-guard-not-reported"
